@@ -409,8 +409,10 @@ Section WithHash.
   Inductive cause := CNone | CNetwork | CCanceled | CDeadline | CWorkLimit | CAttemptLimit | CMaxRecursion.
   Definition cause_local (x : cause) : bool :=
     match x with CNone | CNetwork => false | _ => true end.
-  Definition zone_failure_admitted (zone_empty best_effort ctx_err : bool) (x : cause) : bool :=
-    negb (zone_empty || best_effort || ctx_err || cause_local x).
+  (* [over_budget]: middleware.RecursionWorkEnforcementError(ctx) != nil — the request tree's work
+     ledger has latched an enforcement rejection (/repo c55a314; shadow mode latches nothing) *)
+  Definition zone_failure_admitted (zone_empty best_effort ctx_err over_budget : bool) (x : cause) : bool :=
+    negb (zone_empty || best_effort || ctx_err || over_budget || cause_local x).
 
   (* The resolver handler (DNSHandler.handle) turns a terminal resolution error
      into a SERVFAIL and marks it request-local exactly when
@@ -1038,3 +1040,35 @@ Fixpoint fo_observed (servers : list srv) (level : nat) (st : fo_state) (evs : l
 (* every server's reply was released to the lookup *)
 Definition fo_all_heard (n : nat) (evs : list (nat * nat)) : bool :=
   forallb (fun i => existsb (fun e => (snd e =? i)%nat) evs) (seq 0 n).
+
+(* ================================================================== *)
+(* A glue-less delegation (Resolver.processDelegation -> lookupV4Nss, resolver.go).  The
+   nameserver hosts are looked up one after the other.  A host whose lookup ends in the work
+   limit, the recursion depth, cancellation or the deadline ends the walk with that error; a host
+   the request tree's retry guard rejected (attempt limit) is skipped and remembered; every other
+   outcome without an address (NXDOMAIN, empty reply, an ordinary lookup error) is skipped.  At the
+   end, with no address found: the remembered attempt limit is the walk's error; otherwise
+   processDelegation files a zone failure for the child zone (cause errNoReachableAuth, through
+   recordResolutionZoneFailure's filter) and returns errNoReachableAuth.  Hosts with an address
+   are outside this model (the delegation is then usable). *)
+Inductive nshost := NHNoAddr | NHAttemptLimit | NHFatal (x : cause).
+Inductive gl_out := GLNoAuth | GLLocal (x : cause).
+(* (outcome, hosts looked up) *)
+Fixpoint glueless_walk (hosts : list nshost) (limited : bool) (looked : nat) : gl_out * nat :=
+  match hosts with
+  | [] => (if limited then GLLocal CAttemptLimit else GLNoAuth, looked)
+  | NHNoAddr :: r => glueless_walk r limited (S looked)
+  | NHAttemptLimit :: r => glueless_walk r true (S looked)
+  | NHFatal x :: _ => (GLLocal x, S looked)
+  end.
+Definition glueless (hosts : list nshost) : gl_out * nat := glueless_walk hosts false O.
+(* the zone failure processDelegation files *)
+Definition glueless_published (hosts : list nshost) (best_effort ctx_err over_budget : bool) : bool :=
+  match fst (glueless hosts) with
+  | GLNoAuth => zone_failure_admitted false best_effort ctx_err over_budget CNetwork
+  | GLLocal _ => false
+  end.
+Definition nshost_no_addr (h : nshost) : bool := match h with NHNoAddr => true | _ => false end.
+(* the causes lookupV4Nss ends the walk with *)
+Definition fatal_cause (x : cause) : bool :=
+  match x with CWorkLimit | CMaxRecursion | CCanceled | CDeadline => true | _ => false end.
